@@ -45,3 +45,7 @@ def run(rep, tier, seed):
                         nontrivial=cfgprog.nontrivial_bwd, key=lambda l: "program", extra_args=["--bwd"])
     if r:
         validate_bwd(rep, "bwd-intervals-validated", lines, r[0])
+    # statements outside the theorems (select, x := e(x)): mirror + oracle only
+    lines2 = bwdcommon.gen(seed + 111, 250 if tier == "quick" else 8000, all_stmts=True)
+    vlib.run_stream(rep, "bwd-intervals-all-statements", "bwditv", "fwditv", lines2, oracle=cfgprog.oracle_bwd,
+                    nontrivial=cfgprog.nontrivial_bwd, key=lambda l: "program", extra_args=["--bwd"])
